@@ -171,6 +171,32 @@ Theorem C20_lm_train_loss_ignores_pad_positions : forall pad l l' y ls ys, y = p
   mask_row pad (l :: ls) (y :: ys) = mask_row pad (l' :: ls) (y :: ys).
 Proof. exact mask_row_ignores_pad. Qed.
 
+(* _build_look_up_table for ANY vocabulary (duplicate bytes allowed) and any number of reserved labels:
+   a byte gets num_reserved + the index of its LAST occurrence, every other byte gets
+   oov = num_reserved + len(vocab); the table has 256 entries.  `build_table` interprets the translated
+   fill value / entry expression / table size. *)
+Theorem C20_table_last_occurrence_wins : forall vocab nr (c : nat), Forall (fun v => 0 <= v < 256) vocab -> (c < 256)%nat ->
+  nth c (build_table vocab nr) 0 =
+    match last_index (Z.of_nat c) vocab 0 None with Some i => nr + i | None => SH.lut_oov nr (len vocab) end /\
+  length (build_table vocab nr) = 256%nat.
+Proof. exact table_last_occurrence_wins. Qed.
+
+(* cifar100.preprocess_image: the translated constants are the documented per-channel mean / stddev
+   and the translated expression is (x / 255 - mean) / stddev *)
+Theorem C20_plain_normalisation :
+  Forall2 Qeq Gen_ds_cifar100_norm.plain_mean [4914 # 10000; 4822 # 10000; 4465 # 10000]%Q /\
+  Forall2 Qeq Gen_ds_cifar100_norm.plain_std [2023 # 10000; 1994 # 10000; 2010 # 10000]%Q /\
+  forall v m s, ~ (s == 0)%Q -> (Gen_ds_cifar100_norm.plain_normalise v m s == (v / 255 - m) / s)%Q.
+Proof. exact plain_normalisation. Qed.
+
+(* the hypotheses of C20_domain_ranges / C20_labels_in_vocab are satisfiable by non-trivial instances *)
+Example C20_hypotheses_example :
+  (length [48; 49; 50; 51; 52; 53; 54; 55; 56; 57; 97; 98; 99; 100; 101; 102; 58; 102] = 18%nat /\ length [95; 48; 55] = 3%nat /\
+   is_digit 50 /\ is_digit 53 /\ is_digit 57 /\ is_digit 57 /\ digits_value 50 53 57 57 = 2599) /\
+  bytes_ok [[0; 1; 2; 255]; []; [65]] /\
+  nth 97 (build_table [97; 98; 97] 3) 0 = 5 /\ nth 99 (build_table [97; 98; 97] 3) 0 = 6.
+Proof. vm_compute. repeat split; try discriminate; repeat constructor; try discriminate. Qed.
+
 (* non-vacuity: the docstring example of preprocess_client; crops; a Pythagorean standardisation
    instance (3x1 crop: 9 values, sqrt 9 = 3; low contrast: std 0 <= 1/3) *)
 Example C20_example :
@@ -204,3 +230,5 @@ Print Assumptions C20_stackoverflow_ids_agree_any_vocab.
 Print Assumptions C20_tasks_wiring.
 Print Assumptions C20_lm_train_loss_row_independent.
 Print Assumptions C20_lm_train_loss_ignores_pad_positions.
+Print Assumptions C20_table_last_occurrence_wins.
+Print Assumptions C20_plain_normalisation.
